@@ -316,6 +316,26 @@ def c18_4(ck, prog):
         r.from_reports(ex.reports, keyfn=lambda k, rep: 'bus_connection_be_monitor:%s' % k)
     else:
         r.ok('bus_connection_be_monitor:steps', {'states': ex.nstates})
+    # every owned or queued-for name is released: no iteration of the release loop skips the removal
+    skipped = []
+
+    def on_event_l(user, ev, ctx):
+        for lhs, how, rhs in written_lvalues(ev):
+            if is_ref(lhs, 'service') and rhs is not None and is_member(rhs, 'data', 'DBusList'):
+                if user == 'pending':
+                    ctx.report('a name of the connection is skipped by the release loop (the monitor would keep its '
+                               'place in that name\'s queue)', ev['line'], key='skipped-name')
+                return 'pending'
+        if ev['ev'] == 'call' and ev['e'].get('callee') == 'bus_service_remove_owner':
+            return 'done'
+        if ev['ev'] == 'call' and ev['e'].get('callee') == '_dbus_list_clear' and user == 'pending':
+            ctx.report('the release loop is left with a name not released', ev['line'], key='skipped-name')
+        return user
+    exl = Explorer(fn, init='idle', on_event=on_event_l, track='auto').run()
+    if exl.reports:
+        r.from_reports(exl.reports, keyfn=lambda k, rep: 'bus_connection_be_monitor:%s' % k)
+    else:
+        r.ok('bus_connection_be_monitor:every-name-released')
     # ordinary rules are dropped whenever the connection has any (n_match_rules > 0 guard)
     calls = fn.calls('bus_matchmaker_disconnected')
     names = fn.calls('bus_service_remove_owner')
